@@ -43,7 +43,27 @@ def et_pattern(beh, pres, rec):
     return et
 
 
-def param_yaml(poly, sydiv, klo, khi, tlo, tmin):
+PEAT_T = {"Ksmacz0": 9.0, "alpha": 2, "zeta_max_cm": 1000.0}      # m2/s; about 8 m2/d at the datasets' levels
+PEAT_SY = {"sd": 0.162, "theta_s": 0.88, "b": 7.4, "psi_s": -0.024}
+
+
+def peat_T_m2_d(z_mm):
+    """PEATCLSM transmissivity (Apers et al. 2022, eqn 3) in m2/d, the unit the water balance needs"""
+    return PEAT_T["Ksmacz0"] * (PEAT_T["zeta_max_cm"] - z_mm / 10.0) ** (1 - PEAT_T["alpha"]) / (
+        100.0 * (PEAT_T["alpha"] - 1)) * 86400.0
+
+
+def param_yaml(poly, sydiv, klo, khi, tlo, tmin, mix=0):
+    """mix 0: both sections splines; 1: spline specific yield with PEATCLSM transmissivity; 2: the converse"""
+    doc = yaml.safe_load(_param_yaml(poly, sydiv, klo, khi, tlo, tmin))
+    if mix == 1:
+        doc["transmissivity"] = dict(PEAT_T, type="peatclsm")
+    elif mix == 2:
+        doc["specific_yield"] = dict(PEAT_SY, type="peatclsm")
+    return yaml.safe_dump(doc)
+
+
+def _param_yaml(poly, sydiv, klo, khi, tlo, tmin):
     ks = list(range(klo, khi + 1, max(1, (khi - klo) // 6)))
     if ks[-1] != khi:
         ks.append(khi)
@@ -69,13 +89,15 @@ def one_dataset(args):
         dt = [1800, 3600][idx % 2]
         poly, sydiv = POLYS[idx % 2]
         curvature = [0.0, 250.0][(idx // 2) % 2]
+        mix = [1, 2, 0][(idx // 4) % 3] if curvature else 0      # sections of different types: units of T
         tmin = 8.0
         pres, rec = HY.presentation(beh, dt, "UTC", P.epoch_of(2015, 9, 1))
         et = et_pattern(beh, pres, rec)
         delta = [1.0, 0.5, 1.0, 0.5, 0.5][idx % 5]      # a fractional grid step: levels are not whole millimetres
         wf, outc = HY.run_workflow(beh, dt, "UTC", P.epoch_of(2015, 9, 1), delta, wd, "s%d" % idx,
                                    et_of=lambda i: et.get(i, 13) / float(ET_UNIT))
-        ident = "beh%d dt%d poly%s curvature %g" % (idx, dt, poly, curvature)
+        ident = "beh%d dt%d poly%s curvature %g%s" % (idx, dt, poly, curvature,
+                                                      ["", " Sy spline / T PEATCLSM", " Sy PEATCLSM / T spline"][mix])
         if not (outc.get("rise") and outc["rise"].ok and outc.get("recession") and outc["recession"].ok):
             return idx, [], [(ident, "dataset preparation failed: %s" % {k: v.describe() for k, v in outc.items()}, None)]
         o = wf.run("set-curvature", repr(curvature))
@@ -90,7 +112,7 @@ def one_dataset(args):
             klo, khi = int(zmin) - 4, int(zmax) + 4
         ppath = os.path.join(wd, "p%d.yml" % idx)
         with open(ppath, "w") as f:
-            f.write(param_yaml(poly, sydiv, klo, khi, int(zmax) + 60, tmin))
+            f.write(param_yaml(poly, sydiv, klo, khi, int(zmax) + 60, tmin, mix))
         before = wf.dump()
         outs = {}
         for name, argv in (("rise", ["simulate", "rise", wf.db, ppath]),
@@ -107,7 +129,7 @@ def one_dataset(args):
             problems.append((ident, "a simulate command changed the dataset", "readonly"))
         fx = lambda v: int(round(float(v) * K))
         lv2 = lambda z: int(round(2 * float(z)))
-        if "rise" in outs and "rise_obs" in outs and which in ("C17", "both"):
+        if "rise" in outs and "rise_obs" in outs and which in ("C17", "both") and mix != 2:
             head, rows = parse_rows(outs["rise"])
             obs = yaml.safe_load(outs["rise_obs"])
             if head != ["Water level, mm", "Measured storage, mm", "Simulated storage, mm"]:
@@ -137,12 +159,21 @@ def one_dataset(args):
                            "ON zi.start_epoch = ri.start_epoch")
             ivs = [[(a - pres.e0) // dt, (z - pres.e0) // dt] for a, z in members]
             etseq = [et.get(i, 13) for i in range(0, total + 2)]
+            # TLC's integers are 32 bits: a rate far outside anything the water balance allows is recorded
+            # at the bound (it is rejected there just the same)
+            count = max(1, sum(z - a for a, z in ivs))
+            bound = 2 * 10**9 // (ET_UNIT * count) - int(abs(curvature) * 1e-3 * 10 * KU) - 1
+            used = [max(-bound, min(bound, u)) for u in used]
             cases.append({"id": ident + " recession", "kind": "recession", "K": K * 10, "tol": 2,
                           "rows": [[lv2(r[0]), int(round(float(r[1]) * K * 10)), int(round(float(r[2]) * K * 10))] for r in rows],
                           "view": [[lv2(z), int(round(v / 86400.0 * K * 10))] for z, v in rec_view],
                           "obs": [int(round(float(v) * K * 10)) for v in obs],
                           "used": used, "KU": KU, "tolU": 20, "EtUnit": ET_UNIT, "et": etseq, "intervals": ivs,
-                          "extra": int(round(curvature * 1e-3 * tmin * KU))})
+                          "extra": int(round(curvature * 1e-3 * tmin * KU)),
+                          # per step: curvature x T at the middle of the cell (T varies by 1e-4 over a cell)
+                          "extras": [int(round(curvature * 1e-3 * (peat_T_m2_d((levels[k] + levels[k + 1]) / 2.0)
+                                                                   if mix == 1 else tmin) * KU))
+                                     for k in range(len(used))]})
         wf.cleanup()
     finally:
         rm(wd)
